@@ -21,6 +21,8 @@ THEOREMS = {
         'RsomeV.C01.rc_sound_late',
         'RsomeV.C01.rc_sound_late\'',
     ],
+    'RsomeV.Props.C01Stray': ['RsomeV.C01Stray.rc_sound_stray', 'RsomeV.C01Stray.rc_sound_late_val', 'RsomeV.C01Stray.leToRcK_coef_zero',
+                              'RsomeV.C01Stray.eval_indep_late'],
     'RsomeV.Props.C08': ['RsomeV.C08.cone_dual_weak'],
     'RsomeV.Props.Lmi': ['RsomeV.Lmi.rc_sound_lmi', 'RsomeV.Lmi.lmi_dual_weak'],
     'RsomeV.Props.C01Model': ['RsomeV.C01Model.block_feas', 'RsomeV.C01Model.ro_model_sound', 'RsomeV.C01Model.ro_model_sound_late',
@@ -173,6 +175,7 @@ def run(ctx):
     C.run_difftest(ctx, 'test_late_rvar.py', ctx.n(40, 400), 'RoConstr.le_to_rc (random variables declared after the set)')
     # ---- (d) the whole ro.Model.do_math() assembly (st order, equality split, default set, objective blocks, multiplier
     #          numbering, bound folding, cones) vs the Lean roModel, entry by entry ------------------------------------
+    C.run_difftest(ctx, 'test_stray_rvar.py', ctx.n(30, 300), 'RoConstr.le_to_rc with the stray block (random variables declared after a set with auxiliary columns was formulated)')
     C.run_difftest(ctx, 'test_ro_model.py', ctx.n(60, 1200), 'ro.Model.do_math (whole compiled program of an ro model)')
     C.run_difftest(ctx, 'test_lmi.py', ctx.n(40, 800), 'LMI supports: do_math(primal=False) with LMI blocks and the LMI rows of le_to_rc')
     # ---- search --------------------------------------------------------------------------
@@ -180,6 +183,7 @@ def run(ctx):
     order = sorted(range(len(descs)), key=lambda i: 0 if id(descs[i]) in bad else 1)
     for i in order[:n_search]:
         search_one(ctx, descs[i])
+    stray_probes(ctx, ctx.n(6, 40))
 
 
 def O_sub(ctx):
@@ -205,7 +209,52 @@ def search_one(ctx, d):
         ctx.hit('unsafe:' + v['what'], v, {"desc": d})
 
 
+def stray_case(r):
+    return {"kind": "stray", "default": r.choice(['l1', 'linf', 'l1']), "nz": r.choice([2, 3]), "a": r.choice([1, 2]),
+            "cy": r.choice([1, 2, -1, -2]), "c0": r.choice([0, 1, -1]), "yb": r.choice([3, 5]), "own_first": r.random() < 0.25}
+
+
+def stray_probe(ctx, case):
+    """a random variable declared after a set with auxiliary columns was formulated (and after another set with fewer of them):
+    it is unrestricted under the default set, so a row that multiplies it by a decision must force that coefficient to 0"""
+    import rsome as rso
+    from rsome import ro
+    ctx.search_cases += 1
+    nz = case['nz']
+    with C.quiet():
+        m = ro.Model(); x = m.dvar(); y = m.dvar(); z = m.rvar(nz)
+        dset = (rso.norm(z, 1) <= 1) if case['default'] == 'l1' else (rso.norm(z, 'inf') <= 1)
+        if case['own_first']:       # sets are formulated when forall()/minmax() is called: the one formulated LAST decides the column of w
+            m.st((x >= z[0] - 10).forall(z >= -1, z <= 1)); m.minmax(x, dset)
+        else:
+            m.minmax(x, dset); m.st((x >= z[0] - 10).forall(z >= -1, z <= 1))
+        w = m.rvar()
+        m.st(x >= case['a'] * z.sum() + case['cy'] * y * w + y + case['c0'], y >= -case['yb'], y <= case['yb'])
+    try:
+        O.solve(m)
+    except Exception as e:
+        ctx.count('stray:not-solved:' + type(e).__name__); return
+    xs, ys = float(np.asarray(x.get()).reshape(-1)[0]), float(np.asarray(y.get()).reshape(-1)[0])
+    coef = case['cy'] * ys
+    ctx.count('stray:solved')
+    if abs(coef) > 1e-5:
+        wv = 1e3 * np.sign(coef)
+        ctx.hit('unsafe:row violated at a realisation of the set (late random variable unrestricted)',
+                {'x': xs, 'y': ys, 'z': [0.0] * nz, 'w': wv, 'row': 'x >= a*sum(z) + cy*y*w + y + c0', 'lhs_minus_rhs': xs - (coef * wv + ys + case['c0'])},
+                dict(case))
+    worst = case['a'] * (1 if case['default'] == 'l1' else nz)
+    if xs < worst + ys + case['c0'] - 1e-5 * max(1, abs(xs)):
+        ctx.hit('unsafe:row violated at a vertex of the default set', {'x': xs, 'y': ys, 'need': worst + ys + case['c0']}, dict(case))
+
+
+def stray_probes(ctx, n):
+    for k in range(n):
+        r, seed = O_sub(ctx)
+        stray_probe(ctx, stray_case(r))
+
+
 def search_only(ctx):
+    stray_probes(ctx, 8)
     for k in range(ctx.n(60, 600)):
         r, seed = O_sub(ctx)
         d = O.gen_model(r); d['seed'] = seed
@@ -215,6 +264,10 @@ def search_only(ctx):
 
 
 def replay(rp):
+    if rp['case'].get('kind') == 'stray':
+        ctx = C.Ctx('C01', 'quick', 0)
+        stray_probe(ctx, rp['case'])
+        return {"violations": [h['detail'] for h in ctx.hits], "fails": bool(ctx.hits)}
     d = rp['case']['desc']
     with C.quiet():
         m, h = O.build(d)
